@@ -399,7 +399,9 @@ def add_dadda_karatsuba(
     input_labels_b = list(input_labels_b)
     n = len(input_labels_a)
     if n < 20 and n != 18:
-        return add_mul_dadda(circuit, input_labels_a, input_labels_b)
+        return add_mul_dadda(
+            circuit, input_labels_a, input_labels_b, big_endian=big_endian
+        )
 
     if big_endian:
         input_labels_a.reverse()
